@@ -19,8 +19,21 @@ Contract clauses
         untouched since its last flush, and that nothing touched / pending / held reaches through loaded relationship values or
         captured original values, is gone from `session.identity_map`; every ghost-touched object is still present.
 
+  T   (Session(autobegin=False) only) the Session never begins a transaction on its own: an operation that needs one while
+        none was begun explicitly is refused with InvalidRequestError and changes nothing (the harness then calls begin() and
+        repeats it, as an application would); after every operation `in_transaction()` == "begin() / begin_nested() was called
+        and no commit() / rollback() since".
+
 The ghost model is plain dict arithmetic on the operation names; it never reads SQLAlchemy state except (R) to follow
-references out of objects known to be retained.  Scope: coverage.scope.
+references out of objects known to be retained.  Transactions in the ghost: commit() makes the current values the committed
+snapshot and ends every savepoint; rollback() restores the committed snapshot and ends every savepoint; begin_nested()
+remembers the current values, rollback of that savepoint restores them, commit of it keeps them.
+
+Scope (exact text in coverage.scope): (1) default Session, ALL sequences over OPS (lengths 1..4 quick / 1..5 thorough);
+(2) Session-configuration scope: autobegin x autoflush x expire_on_commit (8 Sessions), ALL sequences over OPS + explicit
+begin(), begin_nested(), commit / rollback of the innermost savepoint (lengths 1..3 quick / 1..4 thorough); sequences with
+an operation that cannot act (no reference to modify through, begin() inside a transaction, no savepoint) are pruned.
+Every history ends with: drop every reference, gc.collect(), commit, compare the tables with the ghost.
 """
 import copy
 import gc
@@ -34,6 +47,11 @@ FN = "orm/state.py::InstanceState._modified_event"
 
 OPS = ["mod_x1", "mod_x2", "append_child", "remove_child", "mod_child", "reparent", "replace_children", "drop_refs", "gc", "flush",
        "commit", "rollback", "load", "add_new"]
+# transaction-control operations of the Session-configuration scope (appended, so the indices of OPS stay valid)
+TX_OPS = ["begin", "begin_nested", "commit_nested", "rollback_nested"]
+OPS2 = OPS + TX_OPS
+DEFAULT_CFG = dict(autobegin=True, autoflush=True, expire_on_commit=True)
+CONFIGS = [dict(autobegin=ab, autoflush=af, expire_on_commit=eoc) for ab in (True, False) for af in (True, False) for eoc in (True, False)]
 
 _G = dict(installed=False, engine=None, kfail=[], touched=None, flushes=0)
 
@@ -94,6 +112,8 @@ class Ghost:
         self.next_c = 11
         self.next_p = 50
         self.touched = set()        # identity names ("p",1) / ("c",2) mutated since the last observed flush
+        self.in_tx = False          # a transaction was begun EXPLICITLY (begin / begin_nested) and not ended since (autobegin=False only)
+        self.nested = []            # [(SessionTransaction of begin_nested(), snapshot of cur taken there)]
 
 
 def reset_db(engine):
@@ -108,6 +128,15 @@ def read_db(engine):
     with engine.connect() as c:
         return {"p": dict(tuple(r) for r in c.exec_driver_sql("select id, x from p")),
                 "c": {r[0]: (r[1], r[2]) for r in c.exec_driver_sql("select id, pid, y from c")}}
+
+
+def new_engine():
+    """SQLite :memory: in the sqlite3 driver's autocommit=False mode (PEP-249 transaction control: SAVEPOINT takes part in the
+    enclosing transaction, which the driver's legacy mode is documented not to guarantee), tables of the shared mappings"""
+    from sqlalchemy import create_engine
+    e = create_engine("sqlite://", connect_args={"autocommit": False})
+    H.mappings().Base.metadata.create_all(e)
+    return e
 
 
 # each operation in its own frame, so no local variable keeps an object alive after it returns
@@ -234,10 +263,108 @@ def _names_reachable_app(refs, m):
     return out
 
 
-def run_history(names, engine=None):
-    """-> dict(fails=[...], nontrivial=bool, applied=int, model=..., db=...)"""
+class Pruned(Exception):
+    pass
+
+
+def _apply(op, s, refs, g, m):
+    """one operation on the real Session + the ghost's arithmetic; returns (applied, exercised_gc_hypothesis)."""
+    applied, nontrivial = 0, False
+    if op in ("mod_x1", "mod_x2"):
+        i = 1 if op == "mod_x1" else 2
+        v = _mod_x(refs, f"p{i}")
+        if v is not None:
+            g.cur["p"][i] = g.cur["p"][i] + 1
+            g.touched.add(("p", i))
+            applied = 1
+    elif op == "append_child":
+        if _append_child(refs, g.next_c, m.C):
+            g.cur["c"][g.next_c] = (1, g.next_c)
+            g.touched.update({("p", 1), ("c", g.next_c)})
+            g.next_c += 1
+            applied = 1
+    elif op == "remove_child":
+        cid = _remove_child(refs)
+        if cid is not None:
+            g.cur["c"][cid] = (None, g.cur["c"][cid][1])
+            g.touched.update({("p", 1), ("c", cid)})
+            applied = 1
+    elif op == "mod_child":
+        r = _mod_child(refs)
+        if r is not None:
+            g.cur["c"][r[0]] = (g.cur["c"][r[0]][0], g.cur["c"][r[0]][1] + 1)
+            g.touched.add(("c", r[0]))
+            applied = 1
+    elif op == "reparent":
+        cid = _reparent(refs)
+        if cid is not None:
+            g.cur["c"][cid] = (2, g.cur["c"][cid][1])
+            g.touched.update({("p", 1), ("p", 2), ("c", cid)})
+            applied = 1
+    elif op == "replace_children":
+        old = _replace_children(refs, g.next_c, m.C)
+        if old is not None:
+            for cid in old:
+                g.cur["c"][cid] = (None, g.cur["c"][cid][1])
+                g.touched.add(("c", cid))
+            g.cur["c"][g.next_c] = (1, g.next_c)
+            g.touched.update({("p", 1), ("c", g.next_c)})
+            g.next_c += 1
+            applied = 1
+    elif op == "drop_refs":
+        refs.clear()
+    elif op == "flush":
+        s.flush()
+    elif op == "commit":
+        s.commit()          # documented: commits the outermost transaction, releasing every SAVEPOINT in effect
+        g.committed = copy.deepcopy(g.cur)
+        g.in_tx, g.nested = False, []
+    elif op == "rollback":
+        s.rollback()        # documented: rolls back the outermost transaction, discarding nested ones
+        g.cur = copy.deepcopy(g.committed)
+        g.touched.clear()
+        g.in_tx, g.nested = False, []
+    elif op == "load":
+        _load(s, refs, m.P)
+    elif op == "add_new":
+        s.add(m.P(id=g.next_p, x=7))
+        g.cur["p"][g.next_p] = 7
+        g.next_p += 1
+        applied = 1
+    elif op == "begin":
+        s.begin()
+        g.in_tx = True
+    elif op == "begin_nested":
+        g.nested.append((s.begin_nested(), copy.deepcopy(g.cur)))       # flushes, then SAVEPOINT
+        g.in_tx = True
+    elif op == "commit_nested":
+        g.nested.pop()[0].commit()                                      # flushes, then RELEASE
+    elif op == "rollback_nested":
+        h, snap = g.nested.pop()
+        h.rollback()                                                    # ROLLBACK TO; changes since begin_nested() are discarded
+        g.cur = snap
+        g.touched.clear()
+    return applied, nontrivial
+
+
+def _inapplicable(op, refs, g, cfg):
+    """operations that cannot act in the current ghost state; a history containing one equals a shorter enumerated
+    history (Session-configuration scope only: the history is pruned)"""
+    if op in ("mod_x1", "mod_x2", "append_child", "remove_child", "mod_child", "reparent", "replace_children"):
+        need = ("p2" if op == "mod_x2" else "p1",) + (("p2",) if op == "reparent" else ())
+        return any(refs.get(n) is None for n in need)
+    if op == "begin":
+        return cfg["autobegin"] or g.in_tx           # autobegin session: a transaction may already be in progress implicitly
+    if op in ("commit_nested", "rollback_nested"):
+        return not g.nested
+    return False
+
+
+def run_history(names, engine=None, cfg=None, prune=False):
+    """-> dict(fails=[...], nontrivial=bool, applied=int, model=..., db=...) ; cfg = Session configuration (None = defaults)"""
     install()
     m = H.mappings()
+    from sqlalchemy import exc as sa_exc
     from sqlalchemy.orm import Session
     engine = engine or _G["engine"]
     reset_db(engine)
@@ -247,82 +374,63 @@ def run_history(names, engine=None):
     fails = []
     nontrivial = False
     applied = 0
-    s = Session(engine)
+    retried = 0
+    cfg = dict(DEFAULT_CFG, **(cfg or {}))
+    s = Session(engine, **cfg)
     refs = {}
+    strict = not cfg["autobegin"]
+
+    def step(op):
+        """autobegin=False: an operation that needs a transaction while none was begun explicitly is REFUSED with
+        InvalidRequestError (no effect); the application then calls begin() and repeats the operation."""
+        nonlocal applied, nontrivial, retried
+        try:
+            a, n = _apply(op, s, refs, g, m)
+        except sa_exc.InvalidRequestError as ex:
+            if not strict or g.in_tx or "Autobegin is disabled" not in str(ex):
+                raise
+            if s.in_transaction():
+                fails.append(f"T: '{op}' was refused for lack of a transaction, yet it left the Session in a transaction")
+            s.begin()
+            g.in_tx = True
+            retried += 1
+            a, n = _apply(op, s, refs, g, m)
+        applied += a
+        nontrivial |= n
+        if strict and s.in_transaction() != g.in_tx:
+            fails.append(f"T: after '{op}' Session(autobegin=False).in_transaction() is {s.in_transaction()}, "
+                         f"explicitly begun and not ended: {g.in_tx}")
+
+    pruned = False
     try:
-        _load(s, refs, m.P)
+        step("load")
         for op in names:
-            if op in ("mod_x1", "mod_x2"):
-                i = 1 if op == "mod_x1" else 2
-                v = _mod_x(refs, f"p{i}")
-                if v is not None:
-                    g.cur["p"][i] = g.cur["p"][i] + 1
-                    g.touched.add(("p", i))
-                    applied += 1
-            elif op == "append_child":
-                if _append_child(refs, g.next_c, m.C):
-                    g.cur["c"][g.next_c] = (1, g.next_c)
-                    g.touched.update({("p", 1), ("c", g.next_c)})
-                    g.next_c += 1
-                    applied += 1
-            elif op == "remove_child":
-                cid = _remove_child(refs)
-                if cid is not None:
-                    g.cur["c"][cid] = (None, g.cur["c"][cid][1])
-                    g.touched.update({("p", 1), ("c", cid)})
-                    applied += 1
-            elif op == "mod_child":
-                r = _mod_child(refs)
-                if r is not None:
-                    g.cur["c"][r[0]] = (g.cur["c"][r[0]][0], g.cur["c"][r[0]][1] + 1)
-                    g.touched.add(("c", r[0]))
-                    applied += 1
-            elif op == "reparent":
-                cid = _reparent(refs)
-                if cid is not None:
-                    g.cur["c"][cid] = (2, g.cur["c"][cid][1])
-                    g.touched.update({("p", 1), ("p", 2), ("c", cid)})
-                    applied += 1
-            elif op == "replace_children":
-                old = _replace_children(refs, g.next_c, m.C)
-                if old is not None:
-                    for cid in old:
-                        g.cur["c"][cid] = (None, g.cur["c"][cid][1])
-                        g.touched.add(("c", cid))
-                    g.cur["c"][g.next_c] = (1, g.next_c)
-                    g.touched.update({("p", 1), ("c", g.next_c)})
-                    g.next_c += 1
-                    applied += 1
-            elif op == "drop_refs":
-                refs.clear()
-            elif op == "gc":
+            if prune and _inapplicable(op, refs, g, cfg):
+                raise Pruned()
+            if op == "gc":
                 nontrivial |= _gc_clause(s, refs, g, m, fails, "gc operation")
-            elif op == "flush":
-                s.flush()
-            elif op == "commit":
-                s.commit()
-                g.committed = copy.deepcopy(g.cur)
-            elif op == "rollback":
-                s.rollback()
-                g.cur = copy.deepcopy(g.committed)
-                g.touched.clear()
-            elif op == "load":
-                _load(s, refs, m.P)
-            elif op == "add_new":
-                s.add(m.P(id=g.next_p, x=7))
-                g.cur["p"][g.next_p] = 7
-                g.next_p += 1
-                applied += 1
+            elif op in ("commit_nested", "rollback_nested") and not g.nested:
+                pass
+            elif op == "begin" and (cfg["autobegin"] or g.in_tx):
+                pass
+            else:
+                step(op)
         refs.clear()
         nontrivial |= _gc_clause(s, refs, g, m, fails, "final drop of every reference")
-        s.commit()
+        step("commit")
+    except Pruned:
+        pruned = True
     except Exception as ex:
         fails.append(f"harness operation raised {type(ex).__name__}: {str(ex)[:200]}")
     finally:
+        g.nested = []
         try:
             s.close()
         except Exception as ex:  # pragma: no cover
             fails.append(f"close raised {type(ex).__name__}")
+    if pruned:
+        _G["touched"] = None
+        return dict(pruned=True, fails=[], nontrivial=False, applied=0, retried=0, model=g.cur, db=g.cur)
     db = read_db(engine)
     if db != g.cur:
         for kind in ("p", "c"):
@@ -331,31 +439,53 @@ def run_history(names, engine=None):
                     fails.append(f"S: row {kind}{i} is {db[kind].get(i, '<no row>')} in the database, last assigned {g.cur[kind].get(i, '<no row>')}")
     fails += sorted(set(_G["kfail"]))
     _G["touched"] = None
-    return dict(fails=fails, nontrivial=nontrivial, applied=applied, model=g.cur, db=db)
+    return dict(fails=fails, nontrivial=nontrivial, applied=applied, retried=retried, model=g.cur, db=db)
 
 
 # ------------------------------------------------------------------------------------------ worker / entry points
 def _worker(job):
     H.quiet()
     if _G["engine"] is None:
-        _G["engine"] = H.new_engine()
+        _G["engine"] = new_engine()
         install()
         run_history(["mod_x1", "flush"])      # warm every lazy import / memoized attribute, then take the process's
         gc.collect()                           # long-lived objects out of the collector's sight: gc.collect() inside a
         gc.freeze()                            # history then only walks the objects the history created (10x faster)
-    res = dict(evaluations=0, nontrivial=0, applied_ops=0, failures=[], samples=[], flushes=0)
+    res = dict(evaluations=0, nontrivial=0, applied_ops=0, failures=[], samples=[], flushes=0,
+               cfg_evaluations=0, cfg_pruned=0, cfg_nontrivial=0, cfg_refused_then_begun=0, cfg_samples=[], cfg_per_config={})
     f0 = _G["flushes"]
-    for idxs in H.job_sequences(len(OPS), job):
-        names = [OPS[k] for k in idxs]
-        r = run_history(names)
-        res["evaluations"] += 1
+    cfg = job.get("cfg")
+    ops = OPS2 if cfg else OPS
+    for idxs in H.job_sequences(len(ops), job):
+        names = [ops[k] for k in idxs]
+        if cfg:
+            r = run_history(names, cfg=cfg, prune=True)
+            if r.get("pruned"):
+                res["cfg_pruned"] += 1
+                continue
+            res["cfg_evaluations"] += 1
+            key = ",".join(f"{k}={v}" for k, v in sorted(cfg.items()))
+            res["cfg_per_config"][key] = res["cfg_per_config"].get(key, 0) + 1
+            if r["nontrivial"]:
+                res["cfg_nontrivial"] += 1
+                if r["retried"]:
+                    res["cfg_refused_then_begun"] += 1
+                if not res["cfg_samples"] and r["applied"] >= 1 and (r["retried"] or any(o in TX_OPS for o in names)) \
+                        and len(names) == job["length"]:
+                    res["cfg_samples"].append(dict(session=cfg, ops=names, then="drop refs; gc.collect(); commit", database=_jsonable(r["db"])))
+        else:
+            r = run_history(names)
+            res["evaluations"] += 1
+            if r["nontrivial"]:
+                res["nontrivial"] += 1
+                if not res["samples"] and r["applied"] >= 2:
+                    res["samples"].append(dict(ops=names, then="drop refs; gc.collect(); commit", database=_jsonable(r["db"])))
         res["applied_ops"] += r["applied"]
-        if r["nontrivial"]:
-            res["nontrivial"] += 1
-            if not res["samples"] and r["applied"] >= 2:
-                res["samples"].append(dict(ops=names, then="drop refs; gc.collect(); commit", database=_jsonable(r["db"])))
         if r["fails"]:
-            res["failures"].append(dict(ops=names, broken=r["fails"], model=_jsonable(r["model"]), database=_jsonable(r["db"])))
+            d = dict(ops=names, broken=r["fails"], model=_jsonable(r["model"]), database=_jsonable(r["db"]))
+            if cfg:
+                d["session"] = cfg
+            res["failures"].append(d)
     res["flushes"] = _G["flushes"] - f0
     return res
 
@@ -368,10 +498,17 @@ def lengths_for(tier):
     return (1, 2, 3, 4) if tier == "quick" else (1, 2, 3, 4, 5)
 
 
+def cfg_lengths_for(tier):
+    return (1, 2, 3) if tier == "quick" else (1, 2, 3, 4)
+
+
 def run(run, tier, seed, args):
     t0 = time.time()
     lengths = lengths_for(tier)
     joblist = H.jobs(len(OPS), lengths, min_jobs=150)
+    cfg_lengths = cfg_lengths_for(tier)
+    for cfg in CONFIGS:
+        joblist += H.jobs(len(OPS2), cfg_lengths, min_jobs=18, cfg=cfg)
     if seed:
         import random
         random.Random(seed).shuffle(joblist)
@@ -388,21 +525,34 @@ def run(run, tier, seed, args):
             continue
         if seen < 5:
             seen += 1
-            run.violation("history-" + "-".join(d["ops"]), dict(function=FN, input=d, expected="database equals the values last assigned; K1-K3, R hold",
+            tag = "".join({"autobegin": "ab", "autoflush": "af", "expire_on_commit": "eoc"}[k] + str(int(v))
+                          for k, v in sorted(d["session"].items())) + "-" if "session" in d else ""
+            run.violation("history-" + tag + "-".join(d["ops"]), dict(function=FN, input=d, expected="database equals the values last assigned; K1-K3, R hold",
                                                                actual=d["broken"], reason="bounded run-time contract check"))
     samples = sorted(agg.get("samples", []), key=lambda x: (-len(x["ops"]), x["ops"]))
     run.coverage.update(
-        evaluations=agg["evaluations"],
-        distinct_nontrivial=agg["nontrivial"],
+        evaluations=agg["evaluations"] + agg["cfg_evaluations"],
+        distinct_nontrivial=agg["nontrivial"] + agg["cfg_nontrivial"],
         rule="every operation sequence of the scope is enumerated once (itertools.product: all distinct); a history is non-trivial when, at "
              "some gc.collect() (a `gc` operation or the final one), an object with unflushed changes according to the ghost model was "
-             "not reachable from any reference the application still held — i.e. the hypothesis of the property was exercised; counted per history",
-        samples=samples[:3] + samples[-2:],
+             "not reachable from any reference the application still held — i.e. the hypothesis of the property was exercised; counted per history. "
+             "Session-configuration scope: every (configuration, sequence) pair is enumerated once; a sequence containing an operation that "
+             "cannot act in the ghost's state (modification without a reference, begin() inside a transaction or on an autobegin session, "
+             "commit_nested / rollback_nested without a savepoint) equals a shorter sequence and is pruned (cfg_pruned); non-trivial as above; "
+             "cfg_refused_then_begun counts the non-trivial histories in which an autobegin=False session refused an operation outside a "
+             "transaction and the operation was repeated after begin()",
+        samples=samples[:3] + samples[-2:] + sorted(agg.get("cfg_samples", []), key=lambda x: json.dumps(x, sort_keys=True))[:3],
         exhaustive=True,
         scope=f"2 parent rows (p1 with 2 children, p2), SQLite :memory:, one Session per history; ALL sequences of length in {list(lengths)} "
               f"over the {len(OPS)} operations {OPS} (scalar modify on either parent, append / remove / modify / re-parent a child, replace the "
               f"collection, drop all application references, gc.collect(), flush, commit, rollback, re-load, add a pending object nobody "
-              f"references), each followed by: drop every reference, gc.collect(), commit, compare tables with the ghost model",
+              f"references), each followed by: drop every reference, gc.collect(), commit, compare tables with the ghost model.  "
+              f"SESSION-CONFIGURATION scope: for each of the {len(CONFIGS)} Sessions autobegin x autoflush x expire_on_commit in (True, False), ALL "
+              f"sequences of length in {list(cfg_lengths)} over the {len(OPS2)} operations OPS + {TX_OPS} (explicit begin(), begin_nested(), commit / "
+              f"rollback of the innermost savepoint), same ending; with autobegin=False an operation refused outside a transaction "
+              f"(InvalidRequestError) is repeated after begin(), and in_transaction() must equal 'explicitly begun and not ended' after every operation",
+        cfg_evaluations=agg["cfg_evaluations"], cfg_pruned=agg["cfg_pruned"], cfg_nontrivial=agg["cfg_nontrivial"],
+        cfg_refused_then_begun=agg["cfg_refused_then_begun"], cfg_evaluations_per_config=agg.get("cfg_per_config", {}),
         operations_applied=agg["applied_ops"],
         flushes_observed=agg["flushes"],
         contract_failures=len(failures),
@@ -412,18 +562,19 @@ def run(run, tier, seed, args):
         "CPython reference counting + gc.collect() semantics: an object with no strong reference is finalised at gc.collect() at the latest",
         "the harness holds application references only in one dict; every operation runs in its own frame so no local variable keeps an object alive",
         "clause R (release) reads __dict__ / committed_state / pending mutations of retained objects only to over-approximate what they keep alive",
-        "SQLite :memory: only; no delete-orphan cascade (a removed child keeps its row with a NULL parent)",
-        "bounded: histories longer than the stated length, more objects, expire_on_commit=False, autoflush=False and pickled/merged objects are outside",
+        "SQLite :memory: (sqlite3 autocommit=False mode, so that SAVEPOINT is transactional) only; no delete-orphan cascade (a removed child keeps its row with a NULL parent)",
+        "Session.commit() / rollback() end the outermost transaction and every savepoint (documented 2.0 behaviour); begin_nested() and a savepoint commit flush first",
+        "bounded: histories longer than the stated length, more objects, join_transaction_mode / external connections, two-phase and pickled/merged objects are outside",
     ]
 
 
 def replay(data):
     H.quiet()
     d = data["input"]
-    eng = H.new_engine()
-    r = run_history(d["ops"], eng)
+    eng = new_engine()
+    r = run_history(d["ops"], eng, cfg=d.get("session"), prune=False)
     if r["fails"]:
-        print(f"REPLAY-FAILS {FN} ops={d['ops']} broken={r['fails']}")
+        print(f"REPLAY-FAILS {FN} session={d.get('session', DEFAULT_CFG)} ops={d['ops']} broken={r['fails']}")
         return 1
     print(f"REPLAY-PASSES {FN} ops={d['ops']}")
     return 0
